@@ -19,6 +19,8 @@
 import math
 from enum import IntEnum
 
+import numpy as np
+
 from .numeric_util import round_away_zero
 
 
@@ -68,13 +70,18 @@ def quantise_pooling_scale(nr_kernel_elements, rescale_bits=0):
 
 # Calculate elementwise Mul OFM scale+shift
 def elementwise_mul_scale(input_scale, input2_scale, output_scale):
-    output_rescale = (input_scale * input2_scale) / output_scale
+    # Calculate in double precision (the scales are typically np.float32) to conform to TensorFlow Lite
+    output_rescale = (np.double(input_scale) * np.double(input2_scale)) / np.double(output_scale)
     out_scale, out_shift = quantise_scale(output_rescale)
     return out_scale, out_shift
 
 
 # Simplified version of calculating elementwise Add/Sub scales
 def simplified_elementwise_add_sub_scale(input1_scale, input2_scale, output_scale, input_shift=16):
+    # Calculate in double precision (the scales are typically np.float32) to conform to TensorFlow Lite
+    input1_scale = np.double(input1_scale)
+    input2_scale = np.double(input2_scale)
+    output_scale = np.double(output_scale)
     max_input_scale = max(input1_scale, input2_scale)
 
     input1_rescale = input1_scale * (1 << input_shift) / (2 * max_input_scale)
